@@ -372,6 +372,7 @@ def _helper_cases(draw, tier):
             "M2": [[draw(st.integers(-16, 16)) / 4.0 for _ in range(k)] for _ in range(m)],
             "vec": [draw(st.integers(-16, 16)) / 4.0 for _ in range(m)],
             "tri": draw(_triangular()), "lin_dec": draw(st.sampled_from([6, 4, 3, 2])),
+            "mexp": draw(st.sampled_from([0, 0, 0, -30, -30, 40])), "lin_far": draw(st.sampled_from([0.0, 0.0, 0.0, 2.0 ** 27, -2.0 ** 30, 1000.0])),
             "k": draw(st.integers(0, 40)), "i": draw(st.integers(0, 44)), "vexp": draw(st.sampled_from([0, 0, 0, -66, -40, 40])),
             "lin": [draw(st.integers(-64, 64)) / 8.0, draw(st.integers(1, 64)) / 8.0 * draw(st.sampled_from([1.0, 1.0, -1.0])), draw(st.integers(2, 40))]}
 
@@ -416,6 +417,10 @@ def check_helpers(case, ctx):
     mid = linalg.point_mid(a, b)
     ctx.check(all(abs(F(x) - (p + q) / 2) <= F(1, 10 ** 12) * F(unit) for x, p, q in zip(mid, Fa, Fb)), "point_mid", "point_mid(%r, %r) = %r" % (a, b, mid))
     M1, M2, vec = case["M1"], case["M2"], case["vec"]
+    if case.get("mexp"):
+        # entries of very small / large magnitude in the left factor (exact power-of-two scaling): products are products
+        M1 = [[x * 2.0 ** case["mexp"] for x in r] for r in M1]
+        ctx.label("tiny-or-huge-matrix-entries")
     T = linalg.matrix_transpose(M1)
     ctx.check([list(r) for r in T] == [[M1[i][j] for i in range(len(M1))] for j in range(len(M1[0]))], "matrix_transpose", "matrix_transpose(%r) = %r" % (M1, T))
     prod = linalg.matrix_multiply(M1, M2)
@@ -445,6 +450,8 @@ def check_helpers(case, ctx):
     bc = linalg.binomial_coefficient(k, i)
     ctx.check(bc == (float(math.comb(k, i)) if i <= k else 0.0), "binomial_coefficient", "binomial_coefficient(%d, %d) = %r, exact %r" % (k, i, bc, math.comb(k, i) if i <= k else 0))
     s0, span, num = case["lin"]
+    s0 = s0 + case.get("lin_far", 0.0)          # an interval of ordinary length far from the origin is an interval too
+    ctx.label("linspace-far-from-origin", bool(case.get("lin_far")))
     ls = linalg.linspace(s0, s0 + span, num)
     ctx.check(len(ls) == num, "linspace-count", "linspace(%r, %r, %d) has %d values" % (s0, s0 + span, num, len(ls)))
     ctx.check(abs(ls[0] - s0) <= 1e-15 * (1 + abs(s0)) and abs(ls[-1] - (s0 + span)) <= 1e-14 * (1 + abs(s0 + span)), "linspace-ends", "linspace ends %r, %r" % (ls[0], ls[-1]))
